@@ -402,7 +402,7 @@ FormatterToXML::initAttrCharsMap()
         m_attrCharsMap[i] = 'S';
     }
 
-    for(size_t j = 0x7F; j < 0x9F; j++)
+    for(size_t j = 0x7F; j <= 0x9F; j++)
     {
         m_attrCharsMap[j] = 'S';
     }
@@ -427,7 +427,7 @@ FormatterToXML::initCharsMap()
         m_charsMap[i] = 'S';
     }
 
-    for(size_t j = 0x7F; j < 0x9F; j++)
+    for(size_t j = 0x7F; j <= 0x9F; j++)
     {
         m_charsMap[j] = 'S';
     }
@@ -918,6 +918,12 @@ FormatterToXML::accumDefaultEscape(
                     writeNumberedEntityReference(ch);
                 }
             }
+            else if(XalanUnicode::charLSEP == ch)
+            {
+                // LSEP gets here only for XML 1.1, where a parser
+                // would turn a literal one into a line feed.
+                writeNumberedEntityReference(ch);
+            }
             else
             {
                 accumContent(ch);
@@ -1269,7 +1275,8 @@ FormatterToXML::characters(
 
                 if((ch < SPECIALSSIZE &&
                     m_charsMap[ch] == 'S') ||
-                    ch > m_maxCharacter)
+                    ch > m_maxCharacter ||
+                    (XalanUnicode::charLSEP == ch && m_isXML1_1 == true))
                 {
                     accumContent(chars, firstIndex, i - firstIndex);
 
@@ -1374,7 +1381,8 @@ FormatterToXML::writeAttrString(
 
         if((ch < SPECIALSSIZE &&
             m_attrCharsMap[ch] == 'S') ||
-            ch > m_maxCharacter)
+            ch > m_maxCharacter ||
+            (XalanUnicode::charLSEP == ch && m_isXML1_1 == true))
         {
             accumContent(theString, firstIndex, i - firstIndex);
 
